@@ -142,16 +142,16 @@ def history_shape_leader_first(recs):
     return False
 
 
-def to_perf(recs, shuffle_rng=None, layout=None):
-    """layout = (cpu, period): which optional sample fields the main event records"""
+def to_perf(recs, shuffle_rng=None, layout=None, origin=ORIGIN):
+    """layout = (cpu, period): which optional sample fields the main event records; origin = 0: no SAMPLE_TIME feature (times stay absolute)"""
     P.set_layout(*(layout or (True, True)))
     try:
-        return _to_perf(recs, shuffle_rng)
+        return _to_perf(recs, shuffle_rng, origin)
     finally:
         P.set_layout(True, True)
 
 
-def _to_perf(recs, shuffle_rng=None):
+def _to_perf(recs, shuffle_rng=None, origin=ORIGIN):
     out = []
     for r in recs:
         k = r[0]
@@ -197,7 +197,7 @@ def _to_perf(recs, shuffle_rng=None):
     else:
         data = [b for _, b in out] + [P.finished_round()]
     last = max([ts for ts, _ in out] + [ORIGIN])
-    return P.build(data, first_time=ORIGIN, last_time=last, context_switch=has_switch)
+    return P.build(data, first_time=(origin if origin else None), last_time=last, context_switch=has_switch)
 
 
 def parse_id(v):
@@ -235,10 +235,10 @@ def view(profile):
 _perf_lock = __import__("threading").Lock()
 
 
-def run_import(samply, recs, d, shuffle_seed=None, extra_args=(), layout=None):
+def run_import(samply, recs, d, shuffle_seed=None, extra_args=(), layout=None, origin=ORIGIN):
     pd = os.path.join(d, "rec.perf.data")
     with _perf_lock:          # the writer's layout is module state
-        data = to_perf(recs, K.SplitMix64(shuffle_seed) if shuffle_seed is not None else None, layout)
+        data = to_perf(recs, K.SplitMix64(shuffle_seed) if shuffle_seed is not None else None, layout, origin)
     open(pd, "wb").write(data)
     outp = os.path.join(d, "out.json")
     r = subprocess.run([samply, "import", pd, "--save-only", "-o", outp] + list(extra_args), capture_output=True, text=True, timeout=120)
@@ -302,8 +302,8 @@ def coq_view(v):
     return K.coq_list(out)
 
 
-def coq_case(recs, v):
-    return "(%d, %s, %s)" % (ORIGIN, coq_records(recs), coq_view(v))
+def coq_case(recs, v, origin=ORIGIN):
+    return "(%d, %s, %s)" % (origin, coq_records(recs), coq_view(v))
 
 
 def evaluate(prop, verdict_fn, cases, stats, extra_args_of=lambda c: (), wrap=None, case_type="(N * list record * list oentry)"):
@@ -319,7 +319,7 @@ def evaluate(prop, verdict_fn, cases, stats, extra_args_of=lambda c: (), wrap=No
         d = os.path.join(base, "h%d" % i)
         os.makedirs(d)
         try:
-            return run_import(samply, c["items"], d, c.get("shuffle"), extra_args_of(c), c.get("layout"))
+            return run_import(samply, c["items"], d, c.get("shuffle"), extra_args_of(c), c.get("layout"), c.get("origin", ORIGIN))
         finally:
             shutil.rmtree(d, ignore_errors=True)
 
@@ -340,7 +340,7 @@ def evaluate(prop, verdict_fn, cases, stats, extra_args_of=lambda c: (), wrap=No
             want = {}
             for rec in c["items"]:
                 if rec[0] == "sample":
-                    want.setdefault((rec[1], rec[2]), set()).add(rec[3] - ORIGIN)
+                    want.setdefault((rec[1], rec[2]), set()).add(rec[3] - c.get("origin", ORIGIN))
             for e in r["view"]:
                 if e.get("weights") is not None:
                     tt = want.get((e["pid"][0], e["tid"][0]), set())
@@ -356,7 +356,7 @@ def evaluate(prop, verdict_fn, cases, stats, extra_args_of=lambda c: (), wrap=No
             stats.setdefault("kinds", {})
             kk = rec[0] + ("-exec" if rec[0] == "comm" and rec[4] else "")
             stats["kinds"][kk] = stats["kinds"].get(kk, 0) + 1
-        t = coq_case(c["items"], r["view"])
+        t = coq_case(c["items"], r["view"], c.get("origin", ORIGIN))
         terms.append(wrap(c, t) if wrap else t)
         idx.append(i)
     shards = [K.case_defs(case_type, ch, fn=verdict_fn) for ch in K.chunked(terms, K.NCPU)]
